@@ -120,7 +120,7 @@ theorem inplace_spec (f : Arr → Arr) : ∀ k, InplaceSpec f (inplace expectedD
     | mk c x gs ex =>
       rw [repIn_iff] at r
       obtain ⟨a, fs, p, m0, m, rfl, q1, q2, q3, q4, ha, hp, hpx, hx, hlab, hl⟩ := r
-      simp only [inplace, ha, supInplace_shape, supSelf_shape] at hrun
+      simp only [inplace, ha, supInplace_shape] at hrun
       cases hlm : landmarksInplace expectedDispatch (inplace expectedDispatch f k) h fs with
       | error e => rw [hlm] at hrun; cases hrun
       | ok h1 =>
@@ -130,6 +130,7 @@ theorem inplace_spec (f : Arr → Arr) : ∀ k, InplaceSpec f (inplace expectedD
         have ha1 : h1[a]? = some (.obj (.shape c) fs) := f1.keep_out ha (.inr q3)
         have hpx1 : h1[p]? = some (.arr x) := f1.keep hpx (fun _ _ hh => by cases hh)
         obtain ⟨h2, e2, f2, ha2, hn2⟩ := selfInplace_spec f ha1 hp hpx1
+        simp only [selfStage, ha1, supSelf_shape] at hrun
         rw [e2] at hrun
         injection hrun with hrun
         subst hrun
